@@ -236,6 +236,11 @@ def run(F, R, tier):
                 "hand-written panic – reviewed environment-only: %s" % envp.get(owner),
                 "hand-written panic!/assert!/unreachable! reachable from the service tasks; not in the reviewed environment-only table")
 
+    # ------------------------------------------------------------------ R5 "keep publishing status": not hostage to the host's replies
+    from rules.c16 import bookkeeping_independent_of_poll
+    R.rule("C13.R5", "status tasks start and the provisioning deadline fires whatever the host returns")
+    bookkeeping_independent_of_poll(F, R, "C13.R5")
+
     # ------------------------------------------------------------------ R4 wrapping subtraction feeding a sleep
     for fid in sorted(reach_ws):
         fn = F.fns[fid]
